@@ -150,6 +150,8 @@ class Decl:
         else:
             cls = Base
         self.cls = cls
+        self.base_cls = Base
+        self.base_keys = [k for k in all_base if k not in moved]
         self.ifaces = derived_ifs + base_ifs
         self.props = {(n, pn): spec for n, props in self.ifaces for pn, spec in props.items()}
         self.two_levels = bool(derived_ifs)
@@ -165,6 +167,19 @@ def run_case(ctx, seed, idx):
         keys = sorted(d.props)
         first_touch = list(keys)
         r.shuffle(first_touch)
+        if d.base_cls is not d.cls and r.random() < 0.5:
+            # an instance of the base class is in use first: whatever is remembered per class on first use must not leak
+            # down the hierarchy
+            try:
+                b_ = d.base_cls('/only/base')
+                list(b_.getInterfaces())
+                for key in d.base_keys[:1]:
+                    setattr(b_, d.attr[key], r.choice(VALUES[d.props[key][0]]))
+                    getattr(b_, d.attr[key])
+            except Exception as e:
+                ctx.report('base-instance-raised', 'using an instance of the base class raised %r' % e, {}, case)
+                return
+            ctx.count('base_class_instance_used_first')
         early = []
         if r.random() < 0.3:
             # a subclass whose constructor assigns its properties BEFORE running the base-class constructor (the
